@@ -972,6 +972,17 @@ func (x *runner) preIssuerCase(root, pi *authority, rootSKI, piSKI bool) {
 		// different signature algorithms: the final certificate's signature field must be the precertificate's (RFC 6962 3.1)
 		bf.setField(fSigAlg, bp.field(fSigAlg))
 	}
+	if r.Intn(4) == 0 {
+		// nothing but the poison / the SCT list (and, where the pre-issuer has one, the authority key id the final issuer writes):
+		// after the transformation the extension list is empty or holds the key id alone
+		var keep [][]byte
+		if k := findExt(bf.exts, oidAKI); k >= 0 && rootSKI {
+			keep = [][]byte{bf.exts[k]}
+		}
+		bp, bf = bp.withExts(nil), bf.withExts(keep)
+		piSKI = false
+		x.out.Count("class:preissuer-no-other-extension")
+	}
 	if r.Intn(3) == 0 {
 		// unique identifiers (never written by the library) on both sides: the pre-issuer edit must leave them alone
 		u := [][]byte{mk(0x81, []byte{byte(r.Intn(8))}, append(r.Bytes(1+r.Intn(3)), 0))}
@@ -1032,6 +1043,7 @@ func (x *runner) preIssuerCase(root, pi *authority, rootSKI, piSKI bool) {
 	}
 	_ = atEnd
 	x.preRoutes(bp, bf, root, pi, cls, true)
+	x.preVerify(bp, bf, root, pi, cls)
 	if k := findExt(bp.exts, oidAKI); k >= 0 {
 		// a precertificate with two authority key ids: only the first one is replaced / deleted
 		dup := bp.insertExt(r.Intn(len(bp.exts)+1), mkExt(oidAKI, r.Bool(), r.Bytes(1+r.Intn(8))))
@@ -1132,6 +1144,56 @@ func (x *runner) ekuCases(root, pi *authority) {
 			x.out.Fail(key, fmt.Sprintf("pre-issuer detection: CT key purpose present %v, but issuer / issuer key hash of the entry say otherwise", isPre))
 		}
 	}
+}
+
+// preVerify: pre-issuer layout of "an embedded SCT verifies exactly when the log signed that precertificate" — the log signs the entry built from
+// [precert, preIssuer, issuer]; that SCT, embedded in the final certificate issued by the issuer, must verify through ctutil.VerifySCT(embedded).
+func (x *runner) preVerify(bp, bf parts, root, pi *authority, cls string) {
+	r := x.r
+	pre := bp.insertExt(r.Intn(len(bp.exts)+1), mkExt(oidPoison, true, []byte{5, 0})).assemble()
+	chP := x.chainOf(pre, pi.sgn.key, pi.parsed, root.parsed)
+	if chP == nil {
+		x.out.Fail("pre-verify "+h(pre), "precertificate does not parse")
+		return
+	}
+	leaf, err := ct.MerkleTreeLeafFromChain(chP, ct.PrecertLogEntryType, 4242)
+	if err != nil {
+		x.out.Fail("pre-verify "+h(pre), "no leaf: "+err.Error())
+		return
+	}
+	pub, _ := stdx509.MarshalPKIXPublicKey(x.k.log.Public())
+	sct := ct.SignedCertificateTimestamp{SCTVersion: ct.V1, LogID: ct.LogID{KeyID: sha256.Sum256(pub)}, Timestamp: 4242}
+	in, err := ct.SerializeSCTSignatureInput(sct, ct.LogEntry{Leaf: *leaf})
+	if err != nil {
+		x.out.Fail("pre-verify "+h(pre), "no signature input: "+err.Error())
+		return
+	}
+	ds, err := tls.CreateSignature(*x.k.log, tls.SHA256, in)
+	if err != nil {
+		return
+	}
+	sct.Signature = ct.DigitallySigned(ds)
+	sctBytes, _ := tls.Marshal(sct)
+	val, err := sctListValue([][]byte{sctBytes})
+	if err != nil {
+		return
+	}
+	fin := bf.insertExt(r.Intn(len(bf.exts)+1), mkExt(oidSCT, false, val)).assemble()
+	chF := x.chainOf(fin, root.sgn.key, root.parsed)
+	if chF == nil {
+		x.out.Fail("pre-verify "+h(fin), "final certificate does not parse")
+		return
+	}
+	key := strings.TrimPrefix(cls, "class:") + " verify pre=" + h(pre) + " fin=" + h(fin) + " preissuer=" + h(pi.der)
+	if err := ctutil.VerifySCT(x.k.log.Public(), chF, &sct, true); err != nil {
+		x.out.Fail(key, "the SCT the log signed over the pre-issuer precertificate entry does not verify on the final certificate: "+err.Error())
+	}
+	h1, e1 := ctutil.LeafHash(chP, &sct, false)
+	h2, e2 := ctutil.LeafHash(chF, &sct, true)
+	if e1 != nil || e2 != nil || h1 != h2 {
+		x.out.Fail(key, "LeafHash differs between the pre-issuer precertificate chain and the embedded route")
+	}
+	x.out.Count("class:preissuer-verify-embedded")
 }
 
 // readCrit reports whether a raw Extension carries critical TRUE.
